@@ -69,7 +69,7 @@ def run(coqdir, rundir, cases, model_outs, limit=40):
             cs, ms = sx.parse(c), sx.parse(m)
             if cs[0] != 'lap' or ms[0] != 'r' or len(c) > 3000:
                 continue
-            ops = cs[3][1:]
+            ops = [o for o in cs[3][1:] if o[0] not in ('reload', 'clone')]      # identity on the model
             lines.append('Example x%d : run_lap %s %s [%s] = %s.\nProof. vm_compute. reflexivity. Qed.' % (
                 n, cs[1], ivlist(cs[2][1:]), '; '.join(sop(o) for o in ops), sout(ops, ms[1:])))
             n += 1
